@@ -31,7 +31,8 @@ use swimos_agent_protocol::encoding::lane::{RawValueLaneRequestDecoder, RawValue
 use swimos_agent_protocol::{LaneRequest, LaneResponse};
 use swimos_api::agent::{Agent, AgentConfig, AgentContext, AgentInitResult, WarpLaneKind};
 use swimos_api::error::{AgentInitError, AgentTaskError};
-use swimos_api::persistence::{ServerPersistence, StoreDisabled};
+use swimos_api::error::StoreError;
+use swimos_api::persistence::{NodePersistence, PlanePersistence, ServerPersistence, StoreDisabled};
 use swimos_messages::remote_protocol::FindNode;
 use swimos_messages::warp::{peel_envelope_header, RawEnvelope};
 use swimos_remote::dns::{BoxDnsResolver, DnsFut, DnsResolver};
@@ -142,6 +143,86 @@ impl WebsocketServer for MemWs {
             .into_stream()
             .map(move |result| result.map(|(sock, _, addr)| (WebSocket::from_upgraded(config, sock, None, BytesMut::new(), Role::Server), addr)))
             .boxed()
+    }
+}
+
+
+// ------------------------------------------------------------------------------------ a store that tells when it is dropped
+
+/// Wraps the configured `ServerPersistence`: behaves exactly like it, and logs when a node store is handed to an agent
+/// runtime (`rt_open`) and when that runtime lets go of it (`rt_end`: the write task - the last part of the runtime to
+/// finish - has ended).  This is the only way to see from outside that an instance's runtime is really over.
+struct ObsServer<S> {
+    inner: S,
+    log: Log,
+}
+
+#[derive(Clone)]
+struct ObsPlane<P> {
+    inner: P,
+    log: Log,
+}
+
+struct ObsNode<N> {
+    inner: N,
+    uri: String,
+    log: Log,
+}
+
+impl<S: ServerPersistence> ServerPersistence for ObsServer<S> {
+    type PlaneStore = ObsPlane<S::PlaneStore>;
+    fn open_plane(&self, name: &str) -> Result<Self::PlaneStore, StoreError> {
+        Ok(ObsPlane { inner: self.inner.open_plane(name)?, log: self.log.clone() })
+    }
+}
+
+impl<P: PlanePersistence> PlanePersistence for ObsPlane<P> {
+    type Node = ObsNode<P::Node>;
+    fn node_store(&self, node_uri: &str) -> BoxFuture<'static, Result<Self::Node, StoreError>> {
+        let fut = self.inner.node_store(node_uri);
+        let log = self.log.clone();
+        let uri = node_uri.to_string();
+        async move {
+            let inner = fut.await?;
+            log.lock().push(json!({"k": "rt_open", "u": uri}));
+            Ok(ObsNode { inner, uri, log })
+        }
+        .boxed()
+    }
+}
+
+impl<N> Drop for ObsNode<N> {
+    fn drop(&mut self) {
+        self.log.lock().push(json!({"k": "rt_end", "u": self.uri}));
+    }
+}
+
+impl<N: NodePersistence> NodePersistence for ObsNode<N> {
+    type MapCon<'a> = N::MapCon<'a> where Self: 'a;
+    type LaneId = N::LaneId;
+    fn id_for(&self, name: &str) -> Result<Self::LaneId, StoreError> {
+        self.inner.id_for(name)
+    }
+    fn get_value(&self, id: Self::LaneId, buffer: &mut BytesMut) -> Result<Option<usize>, StoreError> {
+        self.inner.get_value(id, buffer)
+    }
+    fn put_value(&mut self, id: Self::LaneId, value: &[u8]) -> Result<(), StoreError> {
+        self.inner.put_value(id, value)
+    }
+    fn delete_value(&mut self, id: Self::LaneId) -> Result<(), StoreError> {
+        self.inner.delete_value(id)
+    }
+    fn update_map(&mut self, id: Self::LaneId, key: &[u8], value: &[u8]) -> Result<(), StoreError> {
+        self.inner.update_map(id, key, value)
+    }
+    fn remove_map(&mut self, id: Self::LaneId, key: &[u8]) -> Result<(), StoreError> {
+        self.inner.remove_map(id, key)
+    }
+    fn clear_map(&mut self, id: Self::LaneId) -> Result<(), StoreError> {
+        self.inner.clear_map(id)
+    }
+    fn read_map(&self, id: Self::LaneId) -> Result<Self::MapCon<'_>, StoreError> {
+        self.inner.read_map(id)
     }
 }
 
@@ -498,9 +579,9 @@ async fn run_case_async(case: &Value) -> Value {
     let (incoming_tx, incoming_rx) = mpsc::unbounded_channel();
     let net = MemNet { incoming: Arc::new(Mutex::new(Some(incoming_rx))) };
     let (task, mut handle) = if cfg["persist"].as_bool().unwrap_or(false) {
-        start_server(InMemoryPersistence::default(), plane, net, config, intro)
+        start_server(ObsServer { inner: InMemoryPersistence::default(), log: log.clone() }, plane, net, config, intro)
     } else {
-        start_server(StoreDisabled, plane, net, config, intro)
+        start_server(ObsServer { inner: StoreDisabled, log: log.clone() }, plane, net, config, intro)
     };
     let (end_tx, mut end_rx) = oneshot::channel::<()>();
     {
